@@ -18,6 +18,10 @@ CLAIMED = {
     text="proof: Coq theorems (Props/C04.v): the shape-level verdict after both splits is 'linear, constant coefficients' exactly when every term of the canonical right-hand side is constant or a constant times one state variable (independent of term order and of the other shapes); a variable is analytic iff everything reachable from it along dependencies is so recognised and hits neither documented exception (c04_complete, via the worklist gfp theorem). Tie: 7 algebraically equivalent spellings x entry orders of each canonical system, observed analytic set vs the model decided in Coq; probes: an independent differential criterion (sympy.diff on the spelled text + exceptions + closure) and equality of the analytic set across spellings.",
     note="Trusted: Coq kernel/vm_compute; harness; oracle: SymPy expand() canonicalises every spelling (validated per case, not proved); probe oracle sympy.diff/simplify.",
     technique="Coq proof (idempotence of the two-level split, gfp completeness) + spelling correspondence", ref="5/C04"),
+ "C10": dict(
+    text="proof: Coq theorem (Props/C10.v): in any commutative ring with derivations, d/dx_j of the COMPLETE right-hand side sum_k A_ik x_k + b_i + c_i equals A_ij + d_j c_i for every dimension, which is what the model of get_jacobian_matrix assembles; the pinned tree's variant (summing A_ik without x_k) is proved to lose the linear part. Tie: full-system and numeric-sub-system Jacobians of the implementation evaluated exactly at rational points vs the model inside Coq; probes: exact derivative of the user's right-hand side, and numerical_jacobian vs finite differences of MixedIntegrator.step through the pygsl stand-in.",
+    note="Trusted: Coq kernel/vm_compute; harness; sympy.diff modelled by a formal derivative (not proved to be a derivation); cython autowrap and GSL (stand-in) not verified; finite-difference half is a test.",
+    technique="Coq proof (differential-ring algebra) + exact entrywise correspondence", ref="5/C10"),
  "C15": dict(
     text="proof: Coq theorems (Props/C15.v) over a model of the three generators and the dispatch, generic in a totally ordered number type with monotone addition: a regular train is exactly the multiples k*isi <= T (none missing, nothing else); a Poisson train, for every sequence of draws, has gaps >= min_isi, is strictly increasing and lies in (0,T]; a list stimulus is the sorted permutation of the listed times <= T for any length; each renamed target gets the in-order concatenation of the trains of all stimuli targeting it. Tie: the same Gallina functions instantiated with PrimFloat are compared bit-exactly (in Coq) with spike_times_from_json on generated stimuli sets; property text probed directly.",
     note="Trusted: Coq kernel/vm_compute, PrimFloat only in the executable instance; correspondence harness (draw replay, hex-float printing); np.loadtxt/np.sort/set order/random/math.log modelled not verified; theorems over exact ordered arithmetic.",
